@@ -159,7 +159,19 @@ func cmdCheck(args []string) {
 	}
 	all := func(ob *Obligation) bool { return hasProp(ob, *prop) }
 	// obligations that are undecided on the pinned tree are not claimed: the quick tier does not spend time on them
+	// functions that carry ledger obligations of this property: what those proofs rest on - the earlier,
+	// assumed obligations of the same function, whatever property they are tagged with - is checked as well
+	ledFn := map[string]bool{}
+	for _, f := range led.Functions {
+		ledFn[f] = true
+	}
+	support := func(ob *Obligation) bool {
+		return !*bless && !hasProp(ob, *prop) && ledFn[ob.Fn] && poisons(ob.Kind) && !softKind(ob)
+	}
 	sel := func(ob *Obligation) bool {
+		if support(ob) {
+			return true
+		}
 		return hasProp(ob, *prop) && (*bless || *tier == "thorough" || !wasUndecided[ob.Name])
 	}
 	tmo := 10000
@@ -183,6 +195,48 @@ func cmdCheck(args []string) {
 			}
 		}
 		parallelDo(len(again), func(i int) { owner[again[i]].retry(again[i], tmo) })
+	}
+
+	// a supporting obligation that fails makes everything proved after it in the same function conditional:
+	// the solver assumed it. Retry the failing ones standalone on every solver first.
+	if !*bless {
+		var again []*Obligation
+		owner := map[*Obligation]*VC{}
+		for _, vc := range vcs {
+			for _, ob := range vc.obls {
+				if support(ob) && ob.Result != "unsat" {
+					again = append(again, ob)
+					owner[ob] = vc
+				}
+			}
+		}
+		parallelDo(len(again), func(i int) { owner[again[i]].retry(again[i], tmo) })
+		// the failed ones are not assumed any more; the obligations of such a function are solved again, so
+		// that exactly those fail which rested on the failed assumption
+		var redo []*VC
+		for _, vc := range vcs {
+			for _, ob := range vc.obls {
+				if support(ob) && ob.Result != "unsat" {
+					if vc.noAssume == nil {
+						vc.noAssume = map[int]bool{}
+						redo = append(redo, vc)
+					}
+					vc.noAssume[ob.Index] = true
+					fmt.Printf("NOTE property=%s supporting obligation fails and is not assumed: %q\n", *prop, ob.Name)
+				}
+			}
+		}
+		if len(redo) > 0 {
+			keep := func(ob *Obligation) bool { return sel(ob) && !support(ob) }
+			for _, vc := range redo {
+				for _, ob := range vc.obls {
+					if keep(ob) {
+						ob.Result = ""
+					}
+				}
+			}
+			solveAllSel(redo, keep, tmo)
+		}
 	}
 
 	vcOf := map[*Obligation]*VC{}
@@ -253,7 +307,12 @@ func cmdCheck(args []string) {
 		}
 	}
 	// 2. escalate suspects and new failures (all solvers, standalone)
-	esc := append(append([]*Obligation{}, suspects...), newFailing...)
+	var esc []*Obligation
+	for _, ob := range append(append([]*Obligation{}, suspects...), newFailing...) {
+		if ob.Result != "conditional" {
+			esc = append(esc, ob) // (a conditional one is proved, but under a failed assumption: nothing to retry)
+		}
+	}
 	parallelDo(len(esc), func(i int) {
 		ob := esc[i]
 		vcOf[ob].retry(ob, tmo)
@@ -346,6 +405,10 @@ func cmdCheck(args []string) {
 		}
 		if nl := vcOf[ob].newBareLoop(&led, ob); nl != "" && !decisiveKind(ob.Kind) {
 			behindNewFn = append(behindNewFn, ob.Name+" (the function has a new loop \""+nl+"\", which has no invariant)")
+			continue
+		}
+		if ob.Result == "conditional" {
+			viols = append(viols, violation{ob, ob.Model})
 			continue
 		}
 		viols = append(viols, violation{ob, "obligation discharged on the pinned tree now fails"})
